@@ -22,8 +22,13 @@ TRUSTED = [
     "hand-written model coq/Model/Mapper.v of the TensorMapper pipelines (categorical merge, multicategorical "
     "split/explode/merge/offsets, sequence offsets, timestamp components via Lib/Calendar.v), tied to /repo by this "
     "run's correspondence",
-    "modelled primitives: pandas merge/explode/value_counts/to_datetime (black boxes validated per run), "
-    "string->float and strptime parsing (not modelled)",
+    "modelled primitives: pandas values/apply/explode/merge(left, on index)/dropna/value_counts+reindex/"
+    "reset_index, torch cumsum/cat/nan_to_num, np.stack, Python str.strip/str.split/set, the MultiNestedTensor/"
+    "MultiEmbeddingTensor constructors (Model/Ragged.v); pandas .dt fields are modelled by Lib/Calendar.v, which "
+    "is PROVED to be the proleptic Gregorian calendar on all of Z and validated against pandas on 1700-2200 "
+    "(every day in the thorough tier)",
+    "black box: pd.to_datetime(errors='coerce') (its per-cell result is an input of the model); string->float "
+    "and strptime parsing are not modelled",
     "harness/dfgen.py independent cell-by-cell encoder",
 ]
 ASSUMPTIONS = ["float payloads are dyadic rationals so float32/float64 casts are exact",
@@ -81,10 +86,48 @@ def gen_calendar(rng, k=40):
     return {"kind": "calendar", "cells": cells}
 
 
+def calendar_sweep(rng, chunk=500):
+    """Thorough tier: EVERY day from 1700-01-01 to 2200-12-31, each at a pseudo-random
+    time of day (the finite window the property names, enumerated exhaustively)."""
+    d0, d1 = dt.date(1700, 1, 1), dt.date(2200, 12, 31)
+    out, cur = [], []
+    for k in range((d1 - d0).days + 1):
+        d = d0 + dt.timedelta(days=k)
+        cur.append([d.year, d.month, d.day, rng.randint(0, 23), rng.randint(0, 59), rng.randint(0, 59)])
+        if len(cur) == chunk:
+            out.append({"kind": "calendar", "cells": cur})
+            cur = []
+    if cur:
+        out.append({"kind": "calendar", "cells": cur})
+    return out
+
+
+def gen_malformed(rng):
+    """Low-rate stream OUTSIDE the property's quantifier: a column that does not fit its configuration
+    (string cells without a separator, list cells with one, vectors of different widths).  Nothing is
+    demanded of the implementation here (the oracle is silent); the correspondence checks that the model
+    predicts the raise (theorems multicategorical_ill_typed_raises / np.stack)."""
+    kind = rng.pick(["str-without-sep", "list-with-sep", "ragged-embedding"])
+    n = rng.randint(2, 4)
+    good = G.gen_col(rng, "alpha", "numerical", n, 0.2)
+    if kind == "ragged-embedding":
+        bad = {"name": "beta", "stype": "embedding", "dtype": "object", "sep": None, "fmt": None, "width": 2,
+               "cells": [[1.0, 2.0]] + [[0.5] * rng.pick([1, 3]) for _ in range(n - 1)]}
+    else:
+        bad = {"name": "beta", "stype": "multicategorical", "dtype": "object", "fmt": None, "width": None,
+               "nan_kind": "none", "sep": None if kind == "str-without-sep" else "|",
+               "cells": [("a|b" if kind == "str-without-sep" else ["a", "b"])] + [None] * (n - 1)}
+    return {"n": n, "index": rng.pick(["range", "offset", "dup"]), "cols": [good, bad], "target": None,
+            "col_order": ["alpha", "beta"], "malformed": kind}
+
+
 def generate(rng, tier):
     n = 500 if tier == "quick" else 6000
     cases = [vary(G.gen_frame(rng, stypes=STYPES), rng) for _ in range(n)]
+    cases += [gen_malformed(rng) for _ in range(n // 40)]
     cases += [gen_calendar(rng) for _ in range(25 if tier == "quick" else 400)]
+    if tier == "thorough":
+        cases += calendar_sweep(rng)
     return cases
 
 
@@ -126,6 +169,8 @@ def oracle(case, obs):
         return dict(key="harness-exc", what=obs["harness_exc"], tb=obs.get("tb"))
     if case.get("kind") == "calendar":
         return oracle_calendar(case, obs)
+    if case.get("malformed"):
+        return None            # outside the quantifier: nothing is demanded (see gen_malformed)
     if not obs["ok"]:
         sts = sorted({c["stype"] for c in case["cols"]})
         return dict(key=f"materialize-raises:{obs['exc']}", what=f"materialize raised {obs['exc']}: {obs['msg']}",
@@ -193,10 +238,12 @@ def shrink(case):
 
 
 def nontrivial_sig(case, obs):
+    if case.get("malformed"):
+        return json.dumps(["malformed", case["malformed"], case["n"], case["index"], bool(obs.get("ok"))])
     if not obs.get("ok"):
         return None
     if case.get("kind") == "calendar":
-        return json.dumps(["calendar", case["cells"]])
+        return json.dumps(["calendar", case["cells"][:50], len(case["cells"])])
     if not any(cell is not None for c in case["cols"] for cell in c["cells"]):
         return None
     sig = [case["n"], case["index"], sorted((c["stype"], c["dtype"], str(c.get("sep")), str(c.get("fmt")),
@@ -212,6 +259,9 @@ def stats(cases, obss):
         if c.get("kind") == "calendar":
             d["calendar_instants"] = d.get("calendar_instants", 0) + len(c["cells"])
             continue
+        if c.get("malformed"):
+            d["malformed"] = d.get("malformed", 0) + 1
+            d["malformed_raised"] = d.get("malformed_raised", 0) + (0 if o.get("ok") else 1)
         d["index"][c["index"]] = d["index"].get(c["index"], 0) + 1
         d["rows"][c["n"]] = d["rows"].get(c["n"], 0) + 1
         if not o.get("ok"):
@@ -235,8 +285,11 @@ def coq_term(case, obs):
     """Model/Mapper.v pipelines (through Converter.encode_col) and the canonical
     cell encoding of Model/MapperSpec.v evaluated on every column of the frame and
     compared with the cells the implementation produced."""
-    if not obs.get("ok"):
-        return None
+    if case.get("malformed") and not obs.get("ok"):
+        bad = case["cols"][1]
+        return f"col_raises {M.labels_of(case)} ({M.rawcol(bad, {'MULTI_COUNT': [[], []]})})"
+    if case.get("malformed") or not obs.get("ok"):
+        return None     # an implementation that tolerates a malformed column is not compared (outside the property)
     if case.get("kind") == "calendar":
         secs = [M.epoch_seconds(c) for c in case["cells"]]
         idx = M.plist(range(len(secs)), lambda i: "tt")
